@@ -931,6 +931,8 @@ def generate(unit, template_text, repo_root, units_dir=None):
             g.emit("#[verifier::external_body]", kind="sig", fn=fid, tline=blk.tline, props=props)
         if opts.get("spinoff"):
             g.emit("#[verifier::spinoff_prover]", kind="sig", fn=fid, tline=blk.tline, props=props)
+        if opts.get("noisolation"):
+            g.emit("#[verifier::loop_isolation(false)]", kind="sig", fn=fid, tline=blk.tline, props=props)
         if opts.get("rlimit"):
             g.emit("#[verifier::rlimit(%s)]" % opts["rlimit"], kind="sig", fn=fid, tline=blk.tline, props=props)
         g.emit(sig_line, kind="sig", fn=fid, tline=blk.tline, src=rel, srcline=start_line, props=props)
